@@ -533,6 +533,21 @@ def extract_graph_validates(repo):
     return any(isinstance(n, ast.Raise) for n in ast.walk(fn))
 
 
+def extract_rename_app_label_fixed(repo):
+    """RenameAppLabel.simulate: `parts = related_model.split('.', 1)` (repaired) as opposed to
+    `….split('.', 1)[1]` (finding F12), and the comparison uses parts[0] / parts[1]"""
+    tree = ast.parse(_src(repo, 'django_evolution/mutations/rename_app_label.py'))
+    cls = _find_class(tree, 'RenameAppLabel')
+    fn = _find_func(cls, 'simulate')
+    for n in ast.walk(fn):
+        if isinstance(n, ast.Assign) and any(isinstance(t, ast.Name) and t.id == 'parts' for t in n.targets):
+            v = n.value
+            if isinstance(v, ast.Call) and isinstance(v.func, ast.Attribute) and v.func.attr == 'split':
+                return True
+            return False
+    raise ExtractError('the reference rewrite of RenameAppLabel.simulate was not found')
+
+
 def regenerate(repo, outdir):
     os.makedirs(outdir, exist_ok=True)
     flags = {}
@@ -562,6 +577,11 @@ def regenerate(repo, outdir):
     parts.append('/-- `QSerialization.child_separators` (django_evolution/serialization.py) -/')
     parts.append('def qSeparators : List (String × String) := ' + lean_list(
         '(%s, %s)' % (lean_str(k), lean_str(v)) for k, v in seps))
+    ral = extract_rename_app_label_fixed(repo)
+    flags['rename_app_label_fixed'] = ral
+    parts.append('')
+    parts.append('/-- RenameAppLabel.simulate splits references into (label, model) before comparing them -/')
+    parts.append('def renameAppLabelFixed : Bool := ' + ('true' if ral else 'false'))
     gv = extract_graph_validates(repo)
     flags['graph_validates'] = gv
     parts.append('')
